@@ -13,7 +13,8 @@ from . import pool as poolmod
 EXPLANATION = (
     "Static decision of the structural clauses of C13.  (1) replay cursor discipline in WorkloadTrace: next_batch is written only "
     "by __init__ / advance_to_next_batch; in run_one_tick every delivered batch is appended element by element, in order, and is "
-    "followed by exactly one advance; current_tick grows by exactly one per call on every path.  (2) delivery condition: a batch "
+    "followed by exactly one advance; current_tick grows by exactly one per call on every path.  (2) the first batch is preloaded by a "
+    "constructor that has already set every field the loading step reads; (2 cont.) delivery condition: a batch "
     "is delivered only with `next_batch is not None` and `<arrival side> <= <tick side>` in this orientation, non-strict (never "
     "before its arrival, not later than the first tick at or after it).  (3) K16 accumulate-and-flush: batch_by_arrival and "
     "batch_by_pipeline put every element into exactly one group, group consecutive elements by exact equality (==) of the key, "
